@@ -1,0 +1,41 @@
+//! Verification instrumentation (compiled only with the `verif_hooks` feature).
+//!
+//! A thread-local counter of the elementary steps performed by the packet
+//! validator (labels and pointers followed, records and options visited),
+//! with an optional fuel limit that turns a runaway loop into a panic.
+//! No behavioural change when the limit is left at its default.
+
+use std::cell::Cell;
+
+thread_local! {
+    static STEPS: Cell<u64> = const { Cell::new(0) };
+    static LIMIT: Cell<u64> = const { Cell::new(u64::MAX) };
+}
+
+/// Resets the step counter of the calling thread.
+pub fn reset() {
+    STEPS.with(|s| s.set(0));
+}
+
+/// Number of steps counted on the calling thread since the last `reset()`.
+pub fn steps() -> u64 {
+    STEPS.with(|s| s.get())
+}
+
+/// Sets the fuel limit of the calling thread (`u64::MAX` = unlimited).
+pub fn set_limit(limit: u64) {
+    LIMIT.with(|l| l.set(limit));
+}
+
+/// Counts one elementary step.
+#[inline]
+pub fn step() {
+    let n = STEPS.with(|s| {
+        let n = s.get() + 1;
+        s.set(n);
+        n
+    });
+    if n > LIMIT.with(|l| l.get()) {
+        panic!("verif_hooks: fuel exhausted");
+    }
+}
